@@ -1201,6 +1201,31 @@ func opRoundTripMeta(seed int64, n int) {
 			}
 			nm = dash(strings.Join(req.TopicNames, ","))
 		}
+		if r.Intn(5) == 0 { // CreateTopics through the transport: when it returns, the cache already lists the new topic
+			cache := c.LastMeta()
+			name := names[r.Intn(7)]
+			if r.Intn(2) == 0 {
+				fresh++
+				name = fmt.Sprintf("made%d", (seed%100)*1000+int64(fresh))
+			}
+			np := 1 + r.Intn(3)
+			ctx, cancel := context.WithTimeout(context.Background(), 5*time.Second)
+			m, err := tr.RoundTrip(ctx, addr, &createtopics.Request{Topics: []createtopics.RequestTopic{{Name: name, NumPartitions: int32(np), ReplicationFactor: 1}}})
+			cancel()
+			op := fmt.Sprintf("rtcreate %s %d %s", name, np, encMeta(cache))
+			if err != nil {
+				emit(op, "err "+errKind(err))
+				continue
+			}
+			code := m.(*createtopics.Response).Topics[0].ErrorCode
+			after, asked, err := rt(&metadata.Request{TopicNames: []string{name}})
+			if err != nil || asked {
+				emit(op, fmt.Sprintf("code=%d after=err", code))
+				continue
+			}
+			emit(op, fmt.Sprintf("code=%d after=%s", code, canonTopics(after.Topics)))
+			continue
+		}
 		req.AllowAutoTopicCreation = r.Intn(2) == 0
 		cache := c.LastMeta()
 		if cache == nil {
